@@ -217,6 +217,12 @@ def run_fallback(case, ctx, rec, pytrs):
             d.parse(sec_colon_required=True)
             ctx.hit('fallback:required-by-keyword')
         else:
+            if case['fallback'] == 'colon-required' and len(text) % 2:
+                # the same text read leniently a moment ago (default and
+                # cautious): the strict reading is none the wiser for it
+                ctx.hit('fallback:lenient-first')
+                pytrs.PLSSDesc(text)
+                pytrs.PLSSDesc(text, config='sec_colon_cautious')
             d = pytrs.PLSSDesc(text, config=cfg or None)
         ctx.hit('fallback')
         pp = d.pp_desc
